@@ -65,6 +65,7 @@ def characterise_writer(facts, wb):
     pad_zero = False
     unknown = None
     wrong = None
+    wrong_enc = None
     loops = [q for q in paths if q.end == "loop"]
 
     def after_encoded(p):
@@ -181,7 +182,18 @@ def characterise_writer(facts, wb):
                                 order.append(x[2][1])
                 if order and order != sorted(order):
                     encoding += "(bytes swapped)"
-    return {"encoding": encoding, "terminator": zeros, "pad": pad_mod, "pad_pushes_zero": pad_push, "encoder": enc, "unknown": unknown, "wrong": wrong}
+            else:
+                # a hand-written encoder: `char as u16` keeps the low 16 bits only (no surrogate pairs)
+                bodies = [eb] + list(facts.closures_of(eb))
+                for vb in bodies:
+                    for bi_, si_, st_ in vb.stmts():
+                        if st_["k"] == "assign" and st_["rv"]["k"] == "cast" and st_["rv"].get("from") == "char" and st_["rv"].get("ty") in ("u16", "u8", "i16"):
+                            from flow import dom_guards as _dg
+                            guarded = any(any(x[0] == "const" and isinstance(x[1], int) and x[1] in (0xFFFF, 0x10000, 0xD800, 0xD7FF) for x in walk(c_[0])) for (a_, s_, c_) in _dg(vb, bi_))
+                            if not guarded:
+                                wrong_enc = "each character is written as `char as %s`: a code point above U+FFFF loses its high bits instead of becoming a surrogate pair" % st_["rv"].get("ty")
+                                encoding = "UTF_16LE" if any(c and c.endswith("<impl u16>::to_le_bytes") for c in cs) else "UTF_16?"
+    return {"encoding": encoding, "terminator": zeros, "pad": pad_mod, "pad_pushes_zero": pad_push, "encoder": enc, "unknown": unknown, "wrong": wrong, "wrong_enc": wrong_enc}
 
 
 def characterise_reader(facts, rb):
@@ -374,6 +386,9 @@ def run(facts, rep, ctx):
             rep.inconc(R1, "format %s: title handling of the writer not recognised" % f)
         elif bool(w[f]["title"]) != bool(r[f]["title"]):
             rep.violation(R1, par.name, "title:" + f, "format %s: title written: %s, title read: %s" % (f, bool(w[f]["title"]), bool(r[f]["title"])), "%s:%s" % (par.file, par.line))
+    for wn, wc in sorted(wchar.items()):
+        if wc and wc.get("wrong_enc"):
+            rep.violation(R1, wn, "encoding-truncates", "%s: %s" % (wn.rsplit("::", 1)[-1], wc["wrong_enc"]), "")
     # ---- R06.2 padding ------------------------------------------------------------------------
     for wn, wc in sorted(wchar.items()):
         if not wc:
